@@ -46,13 +46,17 @@ def setQName (cs : List Cls) (i : Nat) (q : Str) : List Cls :=
 
 def getter (useNames : Bool) (c : Cls) : Str := if useNames then c.name else c.qname
 
+/-- `get_reserved()`: built from the container on first use -/
+def builtReserved (useNames : Bool) (st : RState) : List Str :=
+  if st.reserved.isEmpty then st.cur.map (fun c => alnum (getter useNames c)) else st.reserved
+
 /-- `add_numeric_suffix` + `next_qname` + `rename_class` for the class at position `i` -/
 def addNumericSuffix (useNames : Bool) (st : RState) (i : Nat) : RState :=
   match st.cur[i]? with
   | none => st
   | some c =>
     let (ns, name) := splitQName c.qname
-    let reserved := if st.reserved.isEmpty then st.cur.map (fun c => alnum (getter useNames c)) else st.reserved
+    let reserved := builtReserved useNames st
     match nextQNameIdx useNames ns name reserved (reserved.length + 1) 1 with
     | none => { st with reserved := reserved }
     | some k =>
@@ -61,12 +65,21 @@ def addNumericSuffix (useNames : Bool) (st : RState) (i : Nat) : RState :=
       let cmp := alnum (if useNames then newName else q)
       ⟨setQName st.cur i q, cmp :: reserved⟩
 
+/-- `add_abstract_suffix` for the class `c` at position `i`: the `_abstract` suffix when its
+comparison key is free, else a numeric suffix -/
+def addAbstractSuffix (useNames : Bool) (st : RState) (i : Nat) (c : Cls) : RState :=
+  let newq := c.qname ++ "_abstract".toList
+  let cmp := alnum (if useNames then (splitQName newq).2 else newq)
+  let reserved := builtReserved useNames st
+  if reserved.contains cmp then addNumericSuffix useNames { st with reserved := reserved } i
+  else ⟨setQName st.cur i newq, cmp :: reserved⟩
+
 /-- `rename_classes(classes)` for the classes at positions `idxs` -/
 def renameGroup (useNames : Bool) (st : RState) (idxs : List Nat) : RState :=
   let cls := idxs.filterMap (fun i => st.cur[i]?.map (fun c => (i, c)))
   let abstr := cls.filter (·.2.abstract)
   match cls, abstr with
-  | [_, _], [(i, c)] => { st with cur := setQName st.cur i (c.qname ++ "_abstract".toList) }
+  | [_, _], [(i, c)] => addAbstractSuffix useNames st i c
   | _, _ =>
     let total := (cls.filter (·.2.isElement)).length
     let sorted := cls.mergeSort (fun a b => strLe a.2.name b.2.name)
